@@ -473,13 +473,12 @@ theorem lexChars_eq_rangedChars_whole (doc : List Nat) (fuel : Nat) (l : Lexer) 
     lexChars (fun p => doc.drop p) fuel l = rangedChars doc fuel (l.ranges.toList.drop l.idx) l.pos.bytes :=
   lexChars_eq_rangedChars doc _ (whole_chunking doc).1 (whole_chunking doc).2 fuel l h
 
-/-- `lexStream_eq_rangedChars_partial`: the obligation `model:rangedChars=lexStream` of the driver as a theorem, from the
-state left by `ts_lexer_set_included_ranges`, `ts_lexer_set_input`, `ts_lexer_start` on — PARTIAL: that this state
-satisfies `RInv` is a hypothesis here (it is decidable per case; the non-vacuity example below evaluates it).
-OPEN (`lexStream_eq_rangedChars`, full statement): for every list accepted by the setter, `RInv` holds after `start`
-with `ranges.drop idx` / `pos` = the outcome of `skipL rs ⟨rs.head.start_byte, _⟩` (needs the port of `ts_lexer_goto`'s
-scan `findRange` related to `skipL`, and the BOM skip of `start` — C09's `lexStream_bom` for the default range), hence
-`lexChars read fuel (start …) = rangedChars text fuel rs rs.head.start_byte` up to a leading BOM. -/
+/-- `lexStream_eq_rangedChars_partial`: the obligation `model:rangedChars=lexStream` of the driver from the state left by
+`ts_lexer_set_included_ranges`, `ts_lexer_set_input`, `ts_lexer_start` on, with `RInv` of that state as a hypothesis
+(decidable per case; the non-vacuity example below evaluates it).  The hypothesis is DISCHARGED in `Round11b.lean`
+(`lexStream_eq_rangedChars`: every accepted non-empty list, every text that does not begin with a byte-order mark);
+this form stays useful for texts that begin with a BOM.  OPEN: the BOM skip of `start` over a range list whose first
+range with text starts at offset 0 (C09's `lexStream_bom` does it for the default range). -/
 theorem lexStream_eq_rangedChars_partial (text : List Nat) (read : Read) (hch : ChunkingOf text read)
     (hw : WholeChar text read) (rs : List TSRange) (fuel : Nat)
     (h : RInv text (((({} : Lexer).setIncludedRanges rs).1.setInput).start read)) :
